@@ -226,19 +226,29 @@ P = {
        "scheduler fairness is outside the model and is not needed by shutdown_returns.",
   ref="DESIGN.md section 5 C15, section 0"),
  "C19": dict(
-  text="26 Lean theorems about the executable file-system model of tar/zip ExtractWithMask and EnsureNoSymlinks (directories, "
-       "inodes with hard links, symlinks, textual prefix test, MkdirAll, open/truncate, Link, Symlink, masks, first error "
-       "stops): extract_reproduces (tar) and extract_reproduces_zip - a well-formed archive into an empty destination runs "
-       "without error and leaves EXACTLY the archive's tree (masked modes, complete payloads, verbatim symlinks, shared inodes "
-       "for hard links, nothing else); extract_nothing_else for every archive; extract_error_iff; lexical_check_spec; "
-       "extract_contained / extract_contained_inodes / extract_no_outside_link for every archive and initial tree (links "
-       "included, thanks to the guard); extract_wf, guard_makes_lexical, payload_error_propagates, first_error_stops. Each "
-       "line builds a real archive, extracts into a fresh sandbox and compares the ENTIRE tree under and beside the destination.",
-  note="kernel path resolution is trusted to match the model; exactness theorems do not cover skipped tar type flags, a ./ "
-       "entry, a non-empty destination, or precise directory modes when a directory is listed after its children (covered by "
-       "the differential run); a PRE-EXISTING hard link inside the destination to an outside file is outside the statement; "
+  text="45 Lean theorems. Model: a file system that follows symbolic links as the kernel does (Ex.walk; os.MkdirAll and "
+       "internal.EnsureNoSymlinks transcribed call by call), both extractor loops and the six exported wrappers over it; this "
+       "is what the driver executes against the real code on whole trees, including a destination that is itself a link. "
+       "Proved: with the guard every call acts at its lexical path (resolving_is_lexical), hence containment of nodes, "
+       "contents and hard links on the link-following file system for every archive and every real tree whose destination "
+       "is not below a link (extract_contained_resolving, extract_contained_inodes_resolving); the same loops WITHOUT the "
+       "guard calls escape (guardless_escapes, concrete archives); exact reproduction of well-formed archives into an empty or "
+       "missing destination (tar and zip); for any pre-existing tree an error-free run is exactly the overlay of the archive "
+       "on the old tree (extract_overlay: skipped type flags contribute nothing, ./ entries, existing files rewritten with "
+       "their mode kept, a late-listed directory keeps the mode of the first MkdirAll); every failing iteration characterised "
+       "by look-ups in the tree (step_error_tree_iff, guard_error_iff) and what it leaves (failed_step_effect); re-extraction "
+       "(reextract_identity, reextract_link_fails); error propagation for truncated, corrupt, unwritable and unopenable "
+       "entries.",
+  note="privileged process: permission bits never make a call fail in the model or in the correspondence run; for an ordinary "
+       "user extract_reproduces' 'no error' needs owner write and search permission after masking on every directory that "
+       "later receives a child. A PRE-EXISTING hard link inside the destination to an outside file is the one case the "
+       "extractors cannot see: a regular entry on it replaces the outside file's content, mode and everything else stay "
+       "(existing_file_rule; Appendix B). Not modelled: NAME_MAX/PATH_MAX/NUL, destination /, races, the archive/tar and "
+       "archive/zip readers (the model sees the entries they yield); a linked destination and missing ancestors of the "
+       "destination are covered by the differential run only (area dstlinkm; lexical theorems for the ancestors); zip root "
+       "test fi.IsDir() vs kind = dir differs only for a symlink-bit entry named ./ (error without effect on both sides); "
        "umask set to 0 by the harness.",
-  ref="DESIGN.md section 5 C19"),
+  ref="DESIGN.md section 5 C19, section 0"),
  "C03": dict(
   text="47 Lean theorems about the executable model of f64.Int/f128.Int (raw values with Go's wrap-around): Add/Sub exact, "
        "Mul/Div/Mod = truncated exact result, Trunc/Ceil/Round (halves away from zero, both signs), Abs/Neg/Min/Max/Inc/Dec/"
